@@ -38,6 +38,7 @@ type PipeConn struct {
 	closed   bool
 	ClosedBy string // name of the thread that called Close
 	Stream   bool   // true: a Read may return bytes of several writes (TCP); false: one write per Read (datagram-like)
+	NoEOF    bool   // datagram sockets: the peer going away is not observable (no EOF)
 	timedOut bool
 	timer    *vsched.Timer
 	Written  []byte // every byte this end wrote
@@ -66,7 +67,7 @@ func (c *PipeConn) SetAddrs(local, remote string) {
 
 //go:norace
 func (c *PipeConn) readable() bool {
-	return len(c.rd.segs) > 0 || c.rd.wclosed || c.closed || c.timedOut || !vsched.Active()
+	return len(c.rd.segs) > 0 || (c.rd.wclosed && !c.NoEOF) || c.closed || c.timedOut || !vsched.Active()
 }
 
 // Read implements net.Conn.
@@ -99,7 +100,7 @@ func (c *PipeConn) Read(p []byte) (int, error) {
 		}
 		return n, nil
 	}
-	if c.rd.wclosed {
+	if c.rd.wclosed && !c.NoEOF {
 		vsched.Acquire(unsafe.Pointer(&c.rd.sync))
 		return 0, io.EOF
 	}
@@ -122,7 +123,7 @@ func (c *PipeConn) Write(p []byte) (int, error) {
 	if c.closed {
 		return 0, net.ErrClosed
 	}
-	if c.wr.rclosed {
+	if c.wr.rclosed && !c.NoEOF {
 		return 0, &net.OpError{Op: "write", Net: "tcp", Err: os.NewSyscallError("write", syscall.EPIPE)}
 	}
 	if !vsched.Active() {
